@@ -181,7 +181,10 @@ type columnSortIndex struct {
 // newSortIndex creates a new bitmap index column.
 func newSortIndex(indexName, columnName string) *column {
 	byKeys := func(a, b sortIndexItem) bool {
-		return a.Key < b.Key
+		if a.Key != b.Key {
+			return a.Key < b.Key
+		}
+		return a.Value < b.Value // rows with equal keys are distinct items
 	}
 	return columnFor(indexName, &columnSortIndex{
 		btree:   btree.NewBTreeG(byKeys),
